@@ -354,12 +354,22 @@ class PDFStream(PDFObject):
 
             elif f in LITERALS_LZW_DECODE:
                 data = lzwdecode(data)
-            elif f in LITERALS_ASCII85_DECODE:
-                data = ascii85decode(data)
-            elif f in LITERALS_ASCIIHEX_DECODE:
-                data = asciihexdecode(data)
-            elif f in LITERALS_RUNLENGTH_DECODE:
-                data = rldecode(data)
+            elif (
+                f in LITERALS_ASCII85_DECODE
+                or f in LITERALS_ASCIIHEX_DECODE
+                or f in LITERALS_RUNLENGTH_DECODE
+            ):
+                if f in LITERALS_ASCII85_DECODE:
+                    decoder = ascii85decode
+                elif f in LITERALS_ASCIIHEX_DECODE:
+                    decoder = asciihexdecode
+                else:
+                    decoder = rldecode
+                try:
+                    data = decoder(data)
+                except (ValueError, IndexError, RuntimeError, StopIteration) as e:
+                    # a payload that is not in the filter's format
+                    raise PDFValueError(f"Invalid {f!r} data: {e!r}")
             elif f in LITERALS_CCITTFAX_DECODE:
                 data = ccittfaxdecode(data, params)
             elif f in LITERALS_DCT_DECODE:
